@@ -31,6 +31,7 @@ def force(method, per_element, dom, lits):
         'ghost_params': {'a': 'asg'},
         'requires': WF,
         'raises': {},
+        'modifies': ['self._formula._clauses', 'self._formula._numvar'],
         'loops': {k: {'ghost_at_entry': {'C0': 'self._formula._clauses'}, 'ghost_at_entry_vals': {'NV': 'self._formula._numvar'},
                       'inv': ['sat(a, self._formula._clauses) == (sat(a, C0) and forall(lambda u: implies(1 <= u and u <= _it, {})))'.format(per_element.format(lits='{}(f.gid, u)'.format(lits))),
                               'self._formula._numvar == NV', 'ctake(self._formula._clauses, clen(C0)) == C0', 'clen(self._formula._clauses) >= clen(C0)'] + WF,
